@@ -132,7 +132,17 @@ def check_c09(case, stats=None):
                             dupctr += 1
                             S_[(kind, ("dupkey", key, dupctr))] = dict(flags=fl)
                 else:
-                    lenient = (kind == "fd" and c.args[1] in shared_fd) or (kind == "pid") or (kind == "path") or (kind == "task" and st.get(m) == "R")
+                    unpollable = (kind == "fd" and c.args[1] in case.sc.meta.get("unpollable_fds", ())) or (kind == "tmr" and len(c.args) > 4 and c.args[4] == 9) or (kind == "pid" and key[1] > 100000)
+                    if unpollable and st.get(m) == "R":
+                        # cannot be polled: on a running module the registration is rejected and leaves no trace
+                        if stats is not None:
+                            stats["unpollable_on_running"] = stats.get("unpollable_on_running", 0) + 1
+                        if r.ret >= 0:
+                            bad("unpollable-source-accepted", "%s of a source that cannot be polled (key %s) on RUNNING module %d returned %d" % (c.op, key, m, r.ret), r)
+                            S_[(kind, key)] = dict(flags=fl, ud=ud_of(kind, c.args))
+                        pending.append((m, r, "rejected " + c.op))
+                        continue
+                    lenient = unpollable or (kind == "fd" and c.args[1] in shared_fd) or (kind == "pid") or (kind == "path") or (kind == "task" and st.get(m) == "R")
                     if r.ret == 0:
                         if kind == "fd" and (fl & SRC_DUP):
                             dupctr += 1
